@@ -146,6 +146,11 @@ def run_fmt(arg):
             for label, (lo, hi), win, g in cases:
                 reacs.append(Reaction(["H", "H2"], ["H2", "H"], lo, hi, K, 0.0, 0.0, ReactionType.GAS_TWOBODY, len(reacs) + 1))
                 kept.append((label, win, g))
+            # fits that diverge outside the window they are restricted to (that is why databases restrict them):
+            # outside, the coefficient must still be exactly +0.0, not 0 * inf
+            for n_, (lo, hi, b_, c_) in enumerate([(300.0, 1000.0, 0.0, -8000.0), (10.0, 300.0, 400.0, 0.0), (300.0, 1000.0, -400.0, 0.0)]):
+                reacs.append(Reaction(["H", "H2"], ["H2", "H"], lo, hi, K, b_, c_, ReactionType.GAS_TWOBODY, len(reacs) + 1))
+                kept.append((f"diverging/{n_}", (lo, hi), ("diverging", n_)))
             with quiet():
                 net = Network(reacs)
         else:
@@ -209,6 +214,8 @@ def run_fmt(arg):
                 if fmt == "uclchem-freeze":
                     # law value is not constant here: only zero / non-zero is judged
                     ok = (got != 0.0) == exp_active
+                elif label.startswith("diverging/"):
+                    ok = True if exp_active else (got == 0.0 and math.copysign(1, got) > 0)
                 else:
                     ok = (got == K) if exp_active else (got == 0.0 and math.copysign(1, got) > 0)
                 if not ok:
